@@ -806,6 +806,20 @@ class CtxAwareTransformer(NodeTransformer):
         self.contexts.pop()
         return node
 
+    def visit_Lambda(self, node):
+        """Handle visiting a lambda: its parameters are bound in its body."""
+        self.contexts.append(set())
+        args = node.args
+        argchain = [args.posonlyargs, args.args, args.kwonlyargs]
+        if args.vararg is not None:
+            argchain.append((args.vararg,))
+        if args.kwarg is not None:
+            argchain.append((args.kwarg,))
+        self.ctxupdate(a.arg for a in itertools.chain.from_iterable(argchain))
+        self.generic_visit(node)
+        self.contexts.pop()
+        return node
+
     visit_AsyncWith = visit_With
     visit_AsyncFor = visit_For
     visit_AsyncFunctionDef = visit_FunctionDef
